@@ -16,6 +16,10 @@ def match_known(v, ent):
     m = ent.get("match")
     if not m or ent.get("status") != "known":
         return False
+    if "signature" not in m:
+        # entries decided by an experiment (e.g. KF-C17-1's masking re-run) carry only a "rule" text;
+        # they must never match through this generic path
+        return False
     if not _subset_match(m.get("signature", {}), v.get("signature", {})):
         return False
     feats = set(v.get("features") or [])
